@@ -5,7 +5,7 @@
 package queue
 
 // Every function under contract in this package also serves the properties that depend on the whole package.
-//@ package-props C20
+//@ package-props C20 C12
 
 // What protobuf decoding (or a hand-built configuration) guarantees for a value message:
 // a set oneof holds a non-nil wrapper whose message exists; same for the distribution oneofs.
